@@ -3867,6 +3867,15 @@ class Fused(Blockwise):
     def _divisions(self):
         return self.exprs[0]._divisions()
 
+    def simplify_once(self, dependents: defaultdict, simplified: dict):
+        # The fused expressions refer to the external dependencies by name
+        # and are invisible to ``collect_dependents``: rewriting a dependency
+        # underneath a Fused node (e.g. pushing a projection into it that
+        # only the visible dependents agree on) would leave the fused group
+        # with dangling references.  A Fused node is the product of a
+        # complete optimization pass, so there is nothing left to simplify.
+        return self
+
     def _broadcast_dep(self, dep: Expr):
         # Always broadcast single-partition dependencies in Fused
         return dep.npartitions == 1
